@@ -61,6 +61,27 @@ def _choices_threading_rule(ctx):
     return r
 
 
+def pulldata_text_obligations(ctx, rule, rid):
+    """Only expressions are scanned for pulldata(): the words `pulldata('x', ...)` typed in a message (plain text shown to
+    the user) or a label declare nothing - author text never adds an element to the form."""
+    repo = ctx.repo
+    scls = repo.cls("pyxform.survey:Survey")
+    gp = scls.methods["_generate_pulldata_instances"]
+    msg = "Not a code that pulldata('fruits', 'name', 'key', 1) can find"
+    for desc, attrs in (("constraint message", {"bind": {"type": "string", "constraint": ". > 1", "jr:constraintMsg": msg}}), ("required message", {"bind": {"type": "string", "jr:requiredMsg": msg}}),
+                        ("noAppErrorString", {"bind": {"type": "string", "jr:noAppErrorString": msg}}), ("label", {"bind": {"type": "string"}, "label": msg}), ("hint", {"bind": {"type": "string"}, "hint": msg})):
+        it = ctx.interp(rid, hooks={"fnname:node": node_hook, "new:InstanceInfo": lambda i, a, k, n: dict(k)})
+        it.reset([])
+        kw_ = {"choice_filter": None, "default": None}
+        kw_.update(attrs)
+        el = _mk(ctx, repo.cls("pyxform.question:InputQuestion"), "q", parent=Obj(None, {"type": "survey", "name": "data"}, name="data"), **kw_)
+        try:
+            got = [i_.get("name") for i_ in it.call_function(gp, [], {"element": el}, None, gp.node)]
+        except Raised as e:
+            got = f"raises {e.exc_name}"
+        rule.check(got == [], f"pulldata[the words in a {desc}]", "declare no instance (text is not an expression)", gp.loc(), why_fail=f"instances {got!r}")
+
+
 def sparse_extra_columns_obligation(ctx, rule, rid):
     repo = ctx.repo
     scls = repo.cls("pyxform.survey:Survey")
@@ -369,6 +390,7 @@ def run(ctx):
         except Raised as e:
             got_ = f"raises {e.exc_name}"
         r4.check(got_ == [("fruits", "jr://file-csv/fruits.csv")], f"pulldata[{desc_}]", "declares the csv instance `fruits`", gp.loc(), why_fail=repr(got_))
+    pulldata_text_obligations(ctx, r4, "C09.R4")
     # the last-saved instance is declared for every question kind and every cell kind that can carry
     # ${last-saved#name}: default, choice_filter (ordinary AND external selects: the latter are input questions whose
     # filter becomes the `query` predicate), and the bind expressions
